@@ -13,7 +13,7 @@ Section WithSig.
   Lemma accepted_parts : forall s from to sg s',
     migrate_tx sigT recover s from to sg = Ok s' ->
     from <> to /\ staking_validate from to s = Ok tt /\
-    exists s1, staking_execute from to (bank_execute from to s) = Ok s1 /\ s' = set_record from to s1.
+    exists s1, staking_execute from to (bank_move from to s) = Ok s1 /\ s' = set_record from to s1.
   Proof.
     intros s from to sg s' H. apply migrate_tx_inv in H. destruct H as (N & _ & H).
     apply migrate_account_inv in H. destruct H as (_ & _ & _ & V & _ & s1 & X & E). eauto.
@@ -47,6 +47,27 @@ Section WithSig.
     intros s from to sg H s' A. pose proof (auth _ _ _ _ _ A) as (S & R1 & R2 & V1 & V2 & C).
     destruct S as (_ & x & Sx & Rx).
     destruct H as [H|[H|[H|[H|[H|H]]]]]; try congruence; try contradiction. exact (H x Sx Rx).
+  Qed.
+
+  (* vesting: an accepted migration left nothing behind, locked or not; it is refused while anything held is locked *)
+  Theorem source_emptied : forall s from to sg s',
+    wf s -> migrate_tx sigT recover s from to sg = Ok s' ->
+    (forall d, bal_of s' from d = 0) /\
+    (forall d x, sget k2_eqb (from, d) (bal s) = Some x -> locked_of s from d <= 0).
+  Proof.
+    intros s from to sg s' W H. pose proof (moves_everything _ _ _ _ _ W H) as M.
+    pose proof (auth _ _ _ _ _ H) as ((N & _) & _). split.
+    - intros d. rewrite (mv_bal _ _ _ _ M). apply (sel_from from to _ _ _ N).
+    - apply migrate_tx_inv in H. destruct H as (_ & _ & H). apply migrate_account_unlocked in H.
+      apply bank_blocked_false. exact H.
+  Qed.
+
+  Theorem locked_refused : forall s from to sg d x,
+    sget k2_eqb (from, d) (bal s) = Some x -> 0 < locked_of s from d ->
+    forall s', migrate_tx sigT recover s from to sg <> Ok s'.
+  Proof.
+    intros s from to sg d x G L s' A. apply migrate_tx_inv in A. destruct A as (_ & _ & A).
+    apply migrate_account_unlocked in A. pose proof (bank_blocked_false _ _ A d x G). lia.
   Qed.
 
   (* governance: refused while source or target is proposer, depositor or voter of an open proposal *)
